@@ -179,6 +179,18 @@ def check_overload(site, r, ov, kind, cls, where):
     return probs
 
 
+def _compat(x, y):
+    """Does the family x scanned from a guard satisfy the declared family y?"""
+    if x == y:
+        return True
+    if y == 'TEMPLATED' and x.split(':')[0] not in BASIC:
+        return True
+    if x == 'CXX-SPELLING' and y.startswith('CLASS:'):
+        return True
+    # a plain (foreign) type that happens to be spelled like one of the module's typedef names
+    return x.startswith('CLASS:') and family_key(x[6:]) == y
+
+
 def _perfect_matching(sites, want):
     """Is there a one-to-one assignment of call sites to declared (arity, families) entries in
     which every site is compatible with its entry (templated types are labels)?"""
@@ -191,8 +203,7 @@ def _perfect_matching(sites, want):
         n, fam = fams[i]
         k = slots[j]
         return k[0] == n and len(k[1]) == len(fam) and all(
-            x == y or (y == 'TEMPLATED' and x.split(':')[0] not in BASIC) or
-            (x == 'CXX-SPELLING' and y.startswith('CLASS:')) for x, y in zip(fam, k[1]))
+            _compat(x, y) for x, y in zip(fam, k[1]))
     owner = {}
 
     def augment(i, seen):
@@ -231,8 +242,7 @@ def check(case):
             fam = site_families(s)
             # templated types are labels only: align with the expectation
             cands = [k for k in want if k[0] == s.nargs and len(k[1]) == len(fam) and all(
-                x == y or (y == 'TEMPLATED' and x.split(':')[0] not in BASIC) or
-                (x == 'CXX-SPELLING' and y.startswith('CLASS:')) for x, y in zip(fam, k[1]))]
+                _compat(x, y) for x, y in zip(fam, k[1]))]
             exact = [k for k in cands if list(k[1]) == fam]
             # prefer an exact match, then a declared signature not yet used up
             free = [k for k in cands if got[k] < want[k]]
@@ -252,8 +262,7 @@ def check(case):
                 continue
             fam = site_families(s)
             cands = [o for o in overloads if len(o['explicit']) == s.nargs and all(
-                x == y or (y == 'TEMPLATED' and x.split(':')[0] not in BASIC) or
-                (x == 'CXX-SPELLING' and y.startswith('CLASS:'))
+                _compat(x, y)
                 for x, y in zip(fam, [arg_family(a[0]) for a in o['explicit']]))]
             best = None
             for o in cands:
